@@ -110,17 +110,23 @@ impl Prog {
                 break;
             }
             match it {
-                FItem::Nop => self.line("nop", 1),
+                // (comments may hold anything, openers of other comment kinds included)
+                FItem::Nop => self.line(["nop", "nop ; was: /* the old code", "nop // see /* below", "nop ; \"quoted"][(mode as usize >> 9) % 4], 1),
                 FItem::Sts => self.line("sts 0x60, r16", 1),
                 FItem::Lds => self.line("lds r17, 0x61", 1),
                 FItem::Jmp => self.line("jmp 0x1234", 2),
                 FItem::Dw => self.line(".dw 0x5a5a", 1),
                 // (strings too: a non-ASCII character is two bytes, the line is as long as its bytes)
-                FItem::Db1 => self.line([".db 1", ".db \"\u{e9}\"", ".db \"x\""][(mode as usize >> 3) % 3], 1),
+                FItem::Db1 => self.line([".db 1", ".db \"\u{e9}\"", ".db \"x\"", ".db \"/*\"", ".db \";\", 2"][(mode as usize >> 3) % 5], 1),
                 FItem::Db3 => self.line([".db 1, 2, 3", ".db \"a\u{e9}\"", ".db \"\u{e9}\", 5", ".db \"\u{20ac}\""][(mode as usize >> 5) % 4], 2),
                 FItem::Gap3 => {
                     let a = self.addr + 3;
-                    self.org(a)
+                    self.org(a);
+                    // the position may be carried by a segment that holds nothing: the data
+                    // segment is entered and left at once
+                    if (mode >> 7) % 3 == 1 {
+                        self.src.push_str(".dseg\n.cseg\n");
+                    }
                 }
             }
         }
